@@ -31,6 +31,8 @@ var (
 	errInjConnCloseSentinel  error = &net.OpError{Op: "close", Net: "udp", Err: net.ErrClosed}
 	errInjAgentCloseSentinel       = fmt.Errorf("agent: %w", stun.ErrAgentClosed)
 	errInjectedWriteTimeout  error = &net.OpError{Op: "write", Net: "udp", Err: os.ErrDeadlineExceeded}
+	// closing ran into a deadline (a TLS close-notify that the peer does not read): a net.Error with Timeout() true
+	errInjConnCloseTimeout error = &net.OpError{Op: "close", Net: "tcp", Err: os.ErrDeadlineExceeded}
 )
 
 var cliT0 = time.Date(2024, 6, 1, 12, 0, 0, 0, time.UTC)
@@ -49,6 +51,8 @@ type cliOpts struct {
 	StallWrite    bool  `json:"stall_write,omitempty"`   // Write blocks until the connection is closed, then fails (TCP back pressure)
 	SentinelErrs  bool  `json:"sentinel_errs,omitempty"` // the injected close errors wrap net.ErrClosed / ErrAgentClosed instead of being plain errors
 	ClockOffset   int64 `json:"clock_offset,omitempty"`  // ns added to the start of the virtual clock (deadlines then fall off every round number)
+	CloseTimeout  bool  `json:"close_timeout,omitempty"` // with ConnCloseErr: the connection's Close error is a net.Error time-out
+	StaleFields   bool  `json:"stale_fields,omitempty"`  // the caller's message has Type / Length fields that are out of step with Raw when Start is called
 	MaxAttempts   int   `json:"-"`
 }
 
@@ -136,6 +140,12 @@ func (s cliScenario) String() string {
 	if s.Opts.StallWrite {
 		o += " stalledWrites"
 	}
+	if s.Opts.CloseTimeout {
+		o += " connCloseTimesOut"
+	}
+	if s.Opts.StaleFields {
+		o += " staleTypeAndLengthFields"
+	}
 	if s.Opts.Reentrant {
 		o += " reentrantHandlers"
 	}
@@ -185,7 +195,8 @@ type txInst struct {
 	RTO         time.Duration
 	StartTime   time.Time
 	StartPos    int  // log position when the call was issued
-	CallPos     int  // log position when the library call began (after the scheduling point in front of it); 0 = unknown
+	CallPos     int  // log position when the library call began (after the scheduling point in front of it)
+	Called      bool // CallPos is set
 	Thr         int  // scheduler thread that issued the call
 	Started     bool // call issued
 	Returned    bool
@@ -305,7 +316,13 @@ func (c *vConn) Close() error {
 	c.closeN++
 	c.closed = true
 	c.w.rec(obsRec{Kind: "conn-close", Inst: -1})
+	if c.closeN > 1 {
+		return errConnClosed // a second Close finds the connection closed
+	}
 	if c.w.sc.Opts.ConnCloseErr {
+		if c.w.sc.Opts.CloseTimeout {
+			return errInjConnCloseTimeout
+		}
 		if c.w.sc.Opts.SentinelErrs {
 			return errInjConnCloseSentinel
 		}
@@ -574,7 +591,7 @@ func errClass(err error) string {
 		return "nil"
 	case errors.Is(err, errInjAgentCloseSentinel) && err == errInjAgentCloseSentinel:
 		return "inj-agent-close"
-	case err == errInjConnCloseSentinel:
+	case err == errInjConnCloseSentinel, err == errInjConnCloseTimeout:
 		return "inj-conn-close"
 	case err == errInjectedWriteTimeout:
 		return "write-error"
@@ -655,6 +672,11 @@ func (w *cliWorld) msgFor(slot int) *stun.Message {
 		size = w.sc.Opts.MsgSize[slot]
 	}
 	m := cliRequest(slot, size)
+	if w.sc.Opts.StaleFields {
+		// fields assigned without encoding them: Raw is what goes out
+		m.Type = stun.MessageType{Method: stun.MethodAllocate, Class: stun.ClassIndication}
+		m.Length += 8
+	}
 	w.msgs[slot] = m
 	return m
 }
@@ -662,6 +684,9 @@ func (w *cliWorld) msgFor(slot int) *stun.Message {
 // do executes one event in the calling thread.
 func (w *cliWorld) do(ev cliEv, quiesce bool) {
 	c := w.client
+	if quiesce && ev.K != "garbage" {
+		w.rec(obsRec{Kind: "ev", Inst: -1}) // event boundary of a sequential history
+	}
 	switch ev.K {
 	case "start":
 		inst, idx := w.newInst(ev.I, "start")
@@ -672,7 +697,7 @@ func (w *cliWorld) do(ev cliEv, quiesce bool) {
 		inst.Started = true
 		inst.Thr = sched.CurrentID()
 		sched.Point("invoke", nil)
-		inst.CallPos = len(w.log)
+		inst.CallPos, inst.Called = len(w.log), true
 		err := c.Start(m, w.handlerFor(inst, idx))
 		inst.Returned, inst.RetErr = true, err
 		inst.RetAt = w.rec(obsRec{Kind: "start-ret", Inst: idx, Err: err})
@@ -687,7 +712,7 @@ func (w *cliWorld) do(ev cliEv, quiesce bool) {
 		body := func() {
 			inst.Thr = sched.CurrentID()
 			sched.Point("invoke", nil)
-			inst.CallPos = len(w.log)
+			inst.CallPos, inst.Called = len(w.log), true
 			err := c.Do(m, func(e stun.Event) { h(e) })
 			inst.Returned, inst.RetErr = true, err
 			inst.RetAt = w.rec(obsRec{Kind: "do-ret", Inst: idx, Err: err})
@@ -733,6 +758,7 @@ func (w *cliWorld) do(ev cliEv, quiesce bool) {
 	case "garbage":
 		sched.Point("net", nil)
 		d := cliGarbage(ev.Arg)
+		w.rec(obsRec{Kind: "deliver-garbage", Inst: -1, N: len(w.delivered)})
 		w.delivered = append(w.delivered, d)
 		w.conn.inbox = append(w.conn.inbox, d)
 	case "tick":
